@@ -638,6 +638,246 @@ def replay_param_history(f) -> bool:
     return not fails
 
 
+# ----------------------------------------------------------------------------- the Hessian callable HANDED TO SCIPY × call histories
+#
+# The consumer of compile_hessian is solve_scipy: for the Hessian-using methods it hands scipy.optimize.minimize a `hess=`
+# callable next to `fun=` / `jac=` — for maximise all three belong to the NEGATED objective — and SciPy calls it over and over,
+# at the same and at other points, and again on every re-solve of the same Problem (the compiled Hessian lives in the
+# Problem's solver cache, shared by all Hessian methods).  The family: every objective shape that reaches a constant /
+# cached-matrix path of compile_hessian (sum(x**2), sum(x**1), x.dot(x), quadratic forms, linear objectives), the diagonal
+# paths, root wrappers of them and general objectives × {minimise, maximise} × the five Hessian methods × with / without a
+# constraint that widens the variable list (sparse paths) × the history
+#     solve #1 (minimize observed at the import seam, not run)  → hess(p0), hess(p0), hess(p1), hess(p0), hess(p2)
+#     solve #2 of the same Problem, REALLY run by SciPy for a few iterations (SciPy makes its own calls)
+#                                                              → the OLD callable and the NEW one at p0, p1, p0
+#     solve #3 with another Hessian method (same solver cache)  → old and new callables at p2, p0
+# Every answer is judged against central finite differences of the `jac` handed over IN THE SAME minimize call (two step
+# sizes must agree, else the point is no witness), reported together with the dual-number Hessian of ±objective; every array
+# returned earlier must still hold the values it had when it was returned.
+
+SOLVER_METHODS = ["trust-constr", "Newton-CG", "trust-ncg", "dogleg", "trust-exact"]
+
+
+def solver_members(n):
+    """(tag, positive points only?, objective, vector) over a fresh bounded VectorVariable of length n"""
+    from optyx import VectorVariable
+    from optyx.core import vectors as Vc
+    from optyx.core import matrices as Mx
+    from optyx.core.functions import sin, exp
+
+    x = VectorVariable("x", n, lb=-1.0, ub=3.0)
+    Q = np.array([[1.0 + i if i == j else 0.25 * (i - 2 * j) for j in range(n)] for i in range(n)])
+    cs = np.array([1.0, -2.0, 0.5, 3.0, -1.5][:n])
+    out = [
+        ("api:(x**2).sum", False, (x ** 2).sum()), ("api:(x**1).sum", False, (x ** 1).sum()), ("api:x.dot(x)", False, x.dot(x)),
+        ("api:x.sum", False, x.sum()), ("api:(x**3).sum", False, (x ** 3).sum()), ("api:(x**4).sum", False, (x ** 4).sum()),
+        ("ps2:x", False, Vc.VectorPowerSum(x, 2)), ("ps1:x", False, Vc.VectorPowerSum(x, 1)), ("ps2.0:x", False, Vc.VectorPowerSum(x, 2.0)),
+        ("ps2:x[0:2]", False, Vc.VectorPowerSum(x[0:2], 2)), ("ps2:x[::-1]", False, Vc.VectorPowerSum(x[::-1], 2)),
+        ("ps1:x[1:]", False, Vc.VectorPowerSum(x[1:], 1)), ("ps3:x[0:2]", False, Vc.VectorPowerSum(x[0:2], 3)),
+        ("ps0.5:x", True, Vc.VectorPowerSum(x, 0.5)), ("ps-1:x", True, Vc.VectorPowerSum(x, -1)),
+        ("ussin:x", False, Vc.VectorUnarySum(x, "sin")), ("usexp:x", False, Vc.VectorUnarySum(x, "exp")),
+        ("uslog:x", True, Vc.VectorUnarySum(x, "log")), ("uscos:x[0:2]", False, Vc.VectorUnarySum(x[0:2], "cos")),
+        ("dot:x.x", False, Vc.DotProduct(x, x)), ("dot:x.x[::-1]", False, Vc.DotProduct(x, x[::-1])),
+        ("qf:x", False, Mx.QuadraticForm(x, Q)), ("qf:sym", False, Mx.QuadraticForm(x, Q + Q.T)),
+        ("lc:x", False, Vc.LinearCombination(cs, x)), ("lin:scalar", False, 2.0 * x[0] - x[n - 1] + 1.0),
+        ("wrap:neg-ps2", False, -Vc.VectorPowerSum(x, 2)), ("wrap:3*ps2", False, 3.0 * Vc.VectorPowerSum(x, 2)),
+        ("wrap:ps2+lin", False, (x ** 2).sum() + 3.0 * x[0]), ("wrap:c-dot", False, 5.0 - x.dot(x)),
+        ("wrap:-dot+lin", False, x.dot(x) * -1.0 + 3.0 * x[n - 1]), ("wrap:ps2+ps2", False, (x ** 2).sum() + (x[0:2] ** 2).sum()),
+        ("gen:quartic+cross", False, -(x ** 4).sum() + x[0] * x[1]), ("gen:sin*exp", False, sin(x[0]) * exp(0.5 * x[1]) + x[n - 1] ** 2),
+        ("gen:x0*x1", False, x[0] * x[1] + x[1] * x[n - 1]), ("gen:cubic", False, x[0] ** 3 + x[0] * x[1] * x[1] - x[n - 1]),
+    ]
+    return [(t, pos, e, x) for t, pos, e in out]
+
+
+def build_solver_problem(mi, n, sense, constrained):
+    from optyx import Problem
+
+    tag, pos, e, x = solver_members(n)[mi]
+    prob = Problem()
+    prob = prob.maximize(e) if sense == "maximize" else prob.minimize(e)
+    if constrained:          # the constraint brings EVERY element of x into problem.variables (sparse fast paths)
+        prob = prob.subject_to(x.sum() <= 2.0 * n)
+    return tag, pos, e, prob
+
+
+def seam_minimize(prob, method, really, maxiter=4):
+    """(fun, jac, hess) exactly as solve_scipy hands them to scipy.optimize.minimize; `really`: SciPy runs (a few iterations)"""
+    import warnings
+    import optyx.solvers.scipy_solver as SS
+
+    got = {}
+    old = SS.minimize
+
+    def spy(*a, **kw):
+        got.update(kw)
+        if not really:
+            raise J_Captured()
+        return old(*a, **kw)
+
+    SS.minimize = spy
+    try:
+        with warnings.catch_warnings():
+            warnings.simplefilter("ignore")
+            if really:
+                prob.solve(method=method, maxiter=maxiter)
+            else:
+                prob.solve(method=method)
+    finally:
+        SS.minimize = old
+    return got.get("fun"), got.get("jac"), got.get("hess")
+
+
+class J_Captured(Exception):
+    pass
+
+
+def fd_of_jac(jac, p, h):
+    n = len(p)
+    H = np.zeros((n, n))
+    for j in range(n):
+        e = np.zeros(n)
+        e[j] = h
+        H[:, j] = (np.asarray(jac(p + e), dtype=float).ravel() - np.asarray(jac(p - e), dtype=float).ravel()) / (2 * h)
+    return H
+
+
+def run_solver_history(mi, n, sense, constrained, methods, points):
+    """returns (failures, entries checked, points skipped, hess calls)"""
+    tag, pos, e, prob = build_solver_problem(mi, n, sense, constrained)
+    V = list(prob.variables)
+    sgn = -1.0 if sense == "maximize" else 1.0
+    fails, checked, skipped, calls = [], 0, 0, 0
+    held = []                                   # (label, the array object returned, its values at that time)
+
+    def fail(d):
+        d.update({"kind": "solver-hess", "tag": f"solver|{tag}|{sense}|{'+'.join(methods)}|{'constrained' if constrained else 'free'}",
+                  "member": mi, "n": n, "sense": sense, "constrained": constrained, "methods": list(methods), "points": points,
+                  "objective": repr(e)[:160], "V_names": [v.name for v in V]})
+        fails.append(d)
+
+    def judge(label, jac, hess, p):
+        nonlocal checked, skipped, calls
+        x = np.array(p, dtype=float)
+        ret = J.grab(lambda: hess(x.copy()))
+        calls += 1
+        if isinstance(ret, str):
+            fail({"what": f"the hess callable handed to SciPy raised {ret[6:]}", "call": label, "x": list(p)})
+            return
+        got = np.array(ret, dtype=float)
+        if got.shape != (len(V), len(V)):
+            fail({"what": f"the hess callable handed to SciPy returned shape {got.shape}", "call": label, "x": list(p)})
+            return
+        held.append((label, ret, got.copy()))
+        want = oracle_hessian(e, V, p)          # dual numbers on the objective as written (regularity + second reference)
+        if want is None:
+            skipped += 1
+            return
+        f1, f2 = fd_of_jac(jac, x, 1e-4), fd_of_jac(jac, x, 2e-5)
+        if not np.allclose(f1, f2, rtol=1e-4, atol=1e-6) or not np.all(np.isfinite(f1)):
+            skipped += 1
+            return
+        checked += got.size
+        if not np.array_equal(got, got.T):
+            fail({"what": "the hess callable handed to SciPy returned a non-symmetric matrix", "call": label, "x": list(p), "got": got.tolist()})
+            return
+        bad = np.argwhere(~np.isclose(got, f2, rtol=1e-4, atol=1e-5))
+        if len(bad):
+            i, j = (int(a) for a in bad[0])
+            fail({"what": "the hess callable handed to SciPy is not the derivative of the jac handed over in the same minimize call",
+                  "call": label, "x": list(p), "i": i, "j": j, "vi": V[i].name, "vj": V[j].name, "got": float(got[i, j]),
+                  "want_fd_of_handed_jac": float(f2[i, j]), "dual_numbers_of_signed_objective": sgn * want[i][j]})
+
+    def still_held(stage):
+        for label, ret, snap in held:
+            now = np.array(ret, dtype=float)
+            if now.shape != snap.shape or not np.array_equal(now, snap, equal_nan=True):
+                fail({"what": "a Hessian array returned earlier to SciPy changed afterwards", "call": label, "noticed_at": stage,
+                      "x": [], "was": snap.tolist(), "now": now.tolist()})
+                return
+
+    p0, p1, p2 = ([float(a) for a in p[:len(V)]] for p in points)        # a free objective over a view has fewer variables
+    m1, m2 = methods
+    fun1, jac1, hess1 = seam_minimize(prob, m1, really=False)
+    if hess1 is None or jac1 is None:
+        fail({"what": f"no hess / jac callable was handed to SciPy for method {m1}", "call": "solve#1", "x": []})
+        return fails, checked, skipped, calls
+    for k, p in enumerate((p0, p0, p1, p0, p2)):
+        judge(f"solve#1[{m1}] call {k + 1}", jac1, hess1, p)
+        if fails:
+            return fails, checked, skipped, calls
+    still_held("after solve#1")
+    fun2, jac2, hess2 = seam_minimize(prob, m1, really=True)
+    if hess2 is None or jac2 is None:
+        fail({"what": f"no hess / jac callable was handed to SciPy on the re-solve with {m1}", "call": "solve#2", "x": []})
+        return fails, checked, skipped, calls
+    still_held("after SciPy ran solve#2")
+    for k, p in enumerate((p0, p1, p0)):
+        if fails:
+            return fails, checked, skipped, calls
+        judge(f"solve#2[{m1}, run by SciPy] new callable, call {k + 1}", jac2, hess2, p)
+        judge(f"solve#2[{m1}, run by SciPy] OLD callable of solve#1, call {k + 1}", jac1, hess1, p)
+    still_held("after solve#2")
+    if fails:
+        return fails, checked, skipped, calls
+    fun3, jac3, hess3 = seam_minimize(prob, m2, really=False)
+    if hess3 is None or jac3 is None:
+        fail({"what": f"no hess / jac callable was handed to SciPy on the re-solve with {m2}", "call": "solve#3", "x": []})
+        return fails, checked, skipped, calls
+    for k, p in enumerate((p2, p0)):
+        if fails:
+            return fails, checked, skipped, calls
+        judge(f"solve#3[{m2}] new callable, call {k + 1}", jac3, hess3, p)
+        judge(f"solve#3[{m2}] OLD callable of solve#1, call {k + 1}", jac1, hess1, p)
+    still_held("after solve#3")
+    return fails, checked, skipped, calls
+
+
+def solver_hess_failures(rng, thorough, rep=None, only_first=False):
+    """quick: every member × {minimise, maximise} with the method pair and the constraint rotating; thorough / search:
+    every member × sense × every method × with / without the widening constraint"""
+    out = []
+    n_members = len(solver_members(3))
+    k = 0
+    for mi in range(n_members):
+        for si, sense in enumerate(("maximize", "minimize")):
+            if thorough:
+                combos = [(a, c) for a in range(len(SOLVER_METHODS)) for c in (False, True)]
+            else:
+                combos = [((mi + 2 * si + rng.randint(0, 4)) % len(SOLVER_METHODS), (mi + si) % 2 == 1)]
+            for a, constrained in combos:
+                methods = [SOLVER_METHODS[a], SOLVER_METHODS[(a + 1 + rng.randint(0, 3)) % len(SOLVER_METHODS)]]
+                n = 3 + (mi + k) % 2
+                k += 1
+                pos = solver_members(n)[mi][1]
+                points = [J.rand_x(rng, n, pos or rng.random() < 0.3) for _ in range(3)]
+                fails, checked, skipped, calls = run_solver_history(mi, n, sense, constrained, methods, points)
+                if rep is not None:
+                    h = rep.histogram
+                    h["solver_hess_histories"] = h.get("solver_hess_histories", 0) + 1
+                    h["solver_hess_calls"] = h.get("solver_hess_calls", 0) + calls
+                    h["solver_hess_entries"] = h.get("solver_hess_entries", 0) + checked
+                    h["solver_hess:" + sense] = h.get("solver_hess:" + sense, 0) + 1
+                    h["solver_hess:method=" + methods[0]] = h.get("solver_hess:method=" + methods[0], 0) + 1
+                    if skipped:
+                        rep.skipped["solver-hess-irregular-or-unstable-fd-point"] = \
+                            rep.skipped.get("solver-hess-irregular-or-unstable-fd-point", 0) + skipped
+                out.extend(fails[:1])
+                if fails and only_first:
+                    return out
+                if fails:
+                    break
+    return out
+
+
+def replay_solver_hess(f) -> bool:
+    fails, checked, skipped, calls = run_solver_history(f["member"], f["n"], f["sense"], f["constrained"], f["methods"], f["points"])
+    print("objective:", f.get("objective"), "sense:", f["sense"], "methods:", f["methods"], "constrained:", f["constrained"])
+    print("hess calls:", calls, "entries checked:", checked, "points skipped:", skipped)
+    for g in fails:
+        print("FAIL:", {k: g[k] for k in g if k not in ("points",)})
+    return not fails
+
+
 def run(ctx) -> core.Report:
     rng = ctx["rng"]
     thorough = ctx["tier"] == "thorough" or ctx["escalate"]
@@ -757,6 +997,8 @@ def run(ctx) -> core.Report:
     # Parameters in every position × differentiate / compile at v0, Parameter.set, old and new Hessians at the CURRENT values;
     # every fourth history with the recursion thresholds forced low (the explicit-stack differentiator has its own rules)
     rep.oracle_failures.extend(param_history_failures(rng, thorough, rep, forced_every=4))
+    # the hess= callable solve_scipy hands to SciPy (minimise / maximise × Hessian methods), called repeatedly and across re-solves
+    rep.oracle_failures.extend(solver_hess_failures(rng, thorough, rep))
     # a sample of the cells again with every recursion threshold forced low (explicit-stack differentiator / compiler)
     with J.forced_thresholds(2):
         for tag, e, V, xs, params, idx in metas[::(3 if thorough else 9)]:
@@ -791,6 +1033,10 @@ def search(ctx, rep):
         found = param_history_failures(rng, True, None, only_first=True, forced_every=3)
         if found:
             return found[0]
+    # (0b) the Hessian handed to SciPy: every member × sense × method × with / without the widening constraint
+    found = solver_hess_failures(rng, True, None, only_first=True)
+    if found:
+        return found[0]
     # (1) rule / simplifier interaction family (powers of powers, functions of powers, …) at every sign pattern
     U = gen.Universe(rng)
     for tag, e in J.composition_exprs(U):
@@ -834,6 +1080,8 @@ def replay(payload) -> bool:
         return J.replay_sequence(f)
     if f.get("kind") == "param-history":
         return replay_param_history(f)
+    if f.get("kind") == "solver-hess":
+        return replay_solver_hess(f)
     if "exprs" not in f:
         print("no serialisable expression (outside the Lean syntax):", {k: f[k] for k in f if k != "got"})
         return False
